@@ -293,7 +293,7 @@ var StructTypes = []reflect.Type{
 	T(CN1{}), T(CN2{}), T(NMapHolder{}),
 	T(ManyF{}), T(ManyL{}),
 	T(Node{}), T(FNode{}), T(Ping{}), T(Pong{}), T(ENode{}), T(DeepNil{}),
-	T(MapAndLists{}), T(Wrap{}), T(WrapList{}), T(PtrTime{}), T(Named{}), T(SelfAny{}), T(SelfAnyList{}), T(PtrConts{}), T(MutA{}), T(MutB{}), T(MpKeyStruct{}), T(MutGraph{}), T(NonASCII{}), T(RecConts{}), T(AmpTop{}), T(AmpN{}), T(FloatMix{}), T(Forest{}),
+	T(MapAndLists{}), T(Wrap{}), T(WrapList{}), T(PtrTime{}), T(Named{}), T(SelfAny{}), T(SelfAnyList{}), T(PtrConts{}), T(MutA{}), T(MutB{}), T(MpKeyStruct{}), T(MutGraph{}), T(NonASCII{}), T(RecConts{}), T(AmpTop{}), T(AmpN{}), T(FloatMix{}), T(Forest{}), T(CaseTwins{}),
 }
 
 // TypeByName finds a zoo struct type.
@@ -586,6 +586,17 @@ type RecConts struct {
 	T Tree
 	J JMap
 	N int32
+}
+
+// CaseTwins: exported fields that differ only in the case of a later letter (their wire names differ too:
+// only the first letter is lower-cased).
+type CaseTwins struct {
+	URL    string
+	Url    string
+	HitsID int32
+	HitsId int64
+	Ab     bool
+	AB     []int32
 }
 
 // Forest: slices and maps OF recursive container types (their list type names are derived entries of
